@@ -5,6 +5,7 @@ import (
 	"fmt"
 	"strings"
 	"sync"
+	"sync/atomic"
 	"time"
 
 	"github.com/safing/portbase/database"
@@ -51,6 +52,27 @@ type hookRun struct {
 	Cancel2Call, Cancel2Ret uint64
 	RegErr, CancelErr       string
 	CancelPanic             string
+
+	park atomic.Pointer[hookPark]
+}
+
+// hookPark makes a harness hook block inside its callback: the operation that called
+// it is then in the middle of its hook chain (a yield point made of the callback).
+type hookPark struct {
+	phase   string
+	once    sync.Once
+	reached chan struct{}
+	resume  chan struct{}
+}
+
+func (h *hookRun) maybePark(phase string) {
+	if pk := h.park.Load(); pk != nil && pk.phase == phase {
+		hit := false
+		pk.once.Do(func() { hit = true; close(pk.reached) })
+		if hit {
+			<-pk.resume
+		}
+	}
 }
 
 type rawSnap struct {
@@ -116,6 +138,8 @@ type hrun struct {
 	repls   map[string]record.Record // replacement token -> object
 	gate    *gate
 	inconcl []string
+	// template HP
+	parkRounds, cancelWhileParked int
 	// opMu keeps the raw snapshots (storage queries) apart from the operations of the
 	// other workers: hashmap's query executor takes storage lock -> record lock while
 	// InsertValue/MakeSecret/... take record lock -> storage lock, and the two can
@@ -165,6 +189,7 @@ func (h *hookRun) PreGet(dbKey string) error {
 		return &vetoErr{h.spec.ID}
 	}
 	h.rec(c)
+	h.maybePark("preget")
 	return nil
 }
 
@@ -190,6 +215,7 @@ func (h *hookRun) onRecord(phase string, r record.Record) (record.Record, error)
 		return nr, nil
 	}
 	h.rec(c)
+	h.maybePark(phase)
 	return r, nil
 }
 
@@ -374,6 +400,10 @@ func runHooks(w *world, sc *Scenario) *hrun {
 		if h.spec.RegAt == 0 {
 			h.register()
 		}
+	}
+	if sc.Plan != nil && sc.Plan.Template == "HP" {
+		hr.runPark()
+		return hr
 	}
 	var cwg, wwg sync.WaitGroup
 	for _, h := range hr.hooks {
@@ -739,4 +769,68 @@ func (hr *hrun) structSig() string {
 			s.ShareWith, sign(s.RegAt), sign(s.CancelAt))
 	}
 	return sb.String()
+}
+
+// runPark executes the hooks template HP: while an operation is parked inside the
+// callback of Hooks[0] (first in the chain), another hook is cancelled. The hook
+// chains run under the controller's hooksLock, so on a correct tree the Cancel only
+// completes after the operation; the parked callback therefore resumes when the
+// Cancel has returned *or* after a short pause (an amplifier, not a verdict). What is
+// judged is the usual: no call of a hook after its Cancel returned, no duplicate or
+// missing calls.
+func (hr *hrun) runPark() {
+	wk := hr.workers[0]
+	for i := range wk.spec.Ops {
+		wk.do(hr, &wk.spec.Ops[i])
+	}
+	parker := hr.hooks[0]
+	for _, rd := range hr.sc.Plan.HPRounds {
+		target := hr.hooks[rd.Target]
+		if target.reg == nil || target.CancelCall != 0 {
+			continue
+		}
+		pk := &hookPark{phase: rd.Phase, reached: make(chan struct{}), resume: make(chan struct{})}
+		parker.park.Store(pk)
+		op := OpSpec{Kind: "get", Dir: "a/", N: rd.N}
+		if rd.Phase == "preput" {
+			op = OpSpec{Kind: "put", Dir: "a/", N: rd.N, Score: 50, Tag: "red"}
+		}
+		done := make(chan struct{})
+		go func() { defer close(done); wk.do(hr, &op) }()
+		reached := false
+		select {
+		case <-pk.reached:
+			reached = true
+		case <-done:
+		case <-time.After(watchdog):
+			hr.inconcl = append(hr.inconcl, "hook park was not reached")
+		}
+		if reached {
+			cdone := make(chan struct{})
+			go func() { defer close(cdone); target.cancel() }()
+			select {
+			case <-cdone:
+				hr.cancelWhileParked++
+			case <-time.After(2 * time.Millisecond):
+			}
+			close(pk.resume)
+			<-done
+			<-cdone
+			hr.parkRounds++
+		} else {
+			close(pk.resume)
+			<-done
+		}
+		parker.park.Store(nil)
+		g := OpSpec{Kind: "get", Dir: "a/", N: rd.N}
+		wk.do(hr, &g)
+		p := OpSpec{Kind: "put", Dir: "a/", N: rd.N, Score: 51, Tag: "blue"}
+		wk.do(hr, &p)
+	}
+	hr.gate.finish()
+	for _, h := range hr.hooks {
+		if h.reg != nil && h.CancelCall == 0 {
+			h.cancel()
+		}
+	}
 }
